@@ -199,7 +199,7 @@ class StreamDestroy(TopoBase):
                        text='len(self.upstreams) == 0 and not down_has(u0, self)')]
 
 
-ALL = [StreamConnect, StreamDisconnect, StreamDisconnectSubclassMayRefuse]
+ALL = [StreamConnect, StreamDisconnect]
 
 
 # --------------------------------------------------------------------------- combine_latest / zip: _add/_remove_upstream
@@ -322,6 +322,7 @@ class ZipRemoveUpstream(TopoBase):
                        text='keys(self.buffers) == Up + Us and list(self.upstreams) == Up + Us'),
                 Clause('C15.T2_node_is_in_a_state_a_fresh_zip_could_be_in', ['C15'], when='return',
                        text='len(self.upstreams) == 0 or some_remaining_buffer_empty()',
+                       kind='protocol', replay={'scenario': 'zip_remove_upstream_stuck'},
                        note='a zip over the remaining inputs that had received what they delivered would have emitted every '
                             'complete tuple: some remaining buffer must be empty, otherwise the node is stuck forever'),
                 Clause('C15.removing_a_connected_input_never_fails', ['C15'], when='raise', text='False')]
